@@ -13,7 +13,9 @@ Definition Outputs : side := true.
 
 Definition bounds := list (option nat * option nat).
 
-Definition is_edge (o : op) : bool := o_const o && Nat.eqb (length (o_vars o)) 1.
+Definition sk_is_edge (k : skel) : bool := sk_const k && Nat.eqb (length (sk_vars k)) 1.
+Definition is_edge (o : op) : bool := sk_is_edge (skel_of o).
+Definition skeleton_t := list (option skel).
 
 Definition bget (b : bounds) (p : nat) : option nat * option nat := nth p b (None, None).
 
@@ -44,7 +46,7 @@ Definition discoverable (ab : option nat * option nat) (c : nat) : bool :=
   end.
 
 (* the inner loop of expand_whole_cluster *)
-Fixpoint expand_loop (fuel : nat) (sl : slots) (c : nat) (b : bounds)
+Fixpoint expand_loop (fuel : nat) (sl : skeleton_t) (c : nat) (b : bounds)
          (frontier : list (nat * side)) (interior : list (nat * (nat * side)))
   : option (bounds * list (nat * side)) :=
   match fuel with
@@ -54,25 +56,25 @@ Fixpoint expand_loop (fuel : nat) (sl : slots) (c : nat) (b : bounds)
       | [] => Some (b, frontier)
       | (p, (relv, sd)) :: rest =>
           let b1 := fst (set_boundary p sd c b) in
-          match get_op sl p with
+          match g_get sl p with
           | None => None
           | Some o =>
-              let var := nth relv (o_vars o) 0 in
-              let nb := if sd then next_wrap sl p var else prev_wrap sl p var in
+              let var := nth relv (sk_vars o) 0 in
+              let nb := if sd then g_next_wrap sk_vars sl p var else g_prev_wrap sk_vars sl p var in
               match nb with
               | None => None
               | Some (q, relq) =>
                   let nside := negb sd in
-                  match get_op sl q with
+                  match g_get sl q with
                   | None => None
                   | Some oq =>
-                      if is_edge oq then
+                      if sk_is_edge oq then
                         let '(b2, both) := set_boundary q nside c b1 in
                         expand_loop f sl c b2 (if both then frontier else (q, sd) :: frontier) rest
                       else if discoverable (bget b1 q) c then
                         let b2 := set_boundaries q c b1 in
                         let legs := filter (fun l => negb (leg_eqb l (relq, nside)))
-                                           (all_legs (length (o_vars oq))) in
+                                           (all_legs (length (sk_vars oq))) in
                         expand_loop f sl c b2 frontier (push_all (map (fun l => (q, l)) legs) rest)
                       else expand_loop f sl c b1 frontier rest
                   end
@@ -81,18 +83,18 @@ Fixpoint expand_loop (fuel : nat) (sl : slots) (c : nat) (b : bounds)
       end
   end.
 
-Definition expand_whole (fuel : nat) (sl : slots) (p : nat) (leg : nat * side) (c : nat)
+Definition expand_whole (fuel : nat) (sl : skeleton_t) (p : nat) (leg : nat * side) (c : nat)
            (b : bounds) (frontier : list (nat * side)) : option (bounds * list (nat * side)) :=
-  match get_op sl p with
+  match g_get sl p with
   | None => None
   | Some o =>
       let interior :=
-        if is_edge o then [(p, leg)]
-        else push_all (map (fun l => (p, l)) (all_legs (length (o_vars o)))) [] in
+        if sk_is_edge o then [(p, leg)]
+        else push_all (map (fun l => (p, l)) (all_legs (length (sk_vars o)))) [] in
       expand_loop fuel sl c b frontier interior
   end.
 
-Fixpoint first_unmapped_from (p : nat) (sl : slots) (b : bounds) : option nat :=
+Fixpoint first_unmapped_from (p : nat) (sl : skeleton_t) (b : bounds) : option nat :=
   match sl with
   | [] => None
   | s :: r =>
@@ -102,7 +104,7 @@ Fixpoint first_unmapped_from (p : nat) (sl : slots) (b : bounds) : option nat :=
       end
   end.
 
-Fixpoint main_loop (fuel : nat) (sl : slots) (b : bounds) (frontier : list (nat * side)) (c : nat)
+Fixpoint main_loop (fuel : nat) (sl : skeleton_t) (b : bounds) (frontier : list (nat * side)) (c : nat)
   : option (bounds * nat) :=
   match fuel with
   | O => None
@@ -125,15 +127,15 @@ Fixpoint main_loop (fuel : nat) (sl : slots) (b : bounds) (frontier : list (nat 
       end
   end.
 
-Definition find_constant_op (sl : slots) : option nat :=
-  find (fun p => match get_op sl p with Some o => is_edge o | None => false end) (occupied sl).
+Definition find_constant_op (sl : skeleton_t) : option nat :=
+  find (fun p => match g_get sl p with Some o => sk_is_edge o | None => false end) (g_occupied sl).
 
-Definition total_legs (sl : slots) : nat :=
-  fold_right (fun s acc => match s with Some o => 2 * length (o_vars o) + acc | None => acc end) 0 sl.
+Definition total_legs (sl : skeleton_t) : nat :=
+  fold_right (fun s acc => match s with Some o => 2 * length (sk_vars o) + acc | None => acc end) 0 sl.
 
 (* boundaries and number of clusters; None = fuel exhausted / malformed string *)
-Definition decompose (sl : slots) : option (bounds * nat) :=
-  match last_p sl with
+Definition decompose_sk (sl : skeleton_t) : option (bounds * nat) :=
+  match g_last_p sl with
   | None => Some ([], 0)
   | Some lp =>
       let b0 : bounds := repeat (None, None) (S lp) in
@@ -147,39 +149,46 @@ Definition decompose (sl : slots) : option (bounds * nat) :=
       end
   end.
 
+(* the decomposition only looks at the skeleton of the operator string *)
+Definition decompose (sl : slots) : option (bounds * nat) := decompose_sk (skeleton sl).
+
 (* multiplicative weight change of each cluster under a global flip of the cluster *)
+Definition weight_step (sl : slots) (wf : op -> Q) (acc : list Q) (pab : nat * (option nat * option nat)) : list Q :=
+  let '(p, ab) := pab in
+  match ab, get_op sl p with
+  | (Some a, Some c), Some o => if Nat.eqb a c then set_nth acc a (Qmult (nth a acc 1%Q) (wf o)) else acc
+  | _, _ => acc
+  end.
+
 Definition cluster_weights (sl : slots) (b : bounds) (ncl : nat) (wf : op -> Q) : list Q :=
-  fold_left (fun acc '(p, ab) =>
-               match ab, get_op sl p with
-               | (Some a, Some c), Some o =>
-                   if Nat.eqb a c then set_nth acc a (Qmult (nth a acc 1%Q) (wf o)) else acc
-               | _, _ => acc
-               end)
-            (combine (seq 0 (length b)) b) (repeat 1%Q ncl).
+  fold_left (weight_step sl wf) (combine (seq 0 (length b)) b) (repeat 1%Q ncl).
 
 Definition flip_all (l : list bool) := map negb l.
 
 (* apply the chosen flips; the p = 0 state follows inputs that have no predecessor *)
+Definition flip_step (sl : slots) (flips : list bool) (acc : slots * state) (pab : nat * (option nat * option nat)) :=
+  let '(sl', st') := acc in
+  let '(p, ab) := pab in
+  match ab, get_op sl' p with
+  | (Some a, Some c), Some o =>
+      let fin := nth a flips false in
+      let fout := nth c flips false in
+      let o1 := if fin then mkOp (o_vars o) (o_bond o) (flip_all (o_in o)) (o_out o) (o_const o) else o in
+      let st1 := if fin then
+                   fold_left (fun s '(k, v) =>
+                                match prev_for_var sl p v with
+                                | None => set_nth s v (nth k (o_in o1) false)
+                                | Some _ => s
+                                end)
+                             (combine (seq 0 (length (o_vars o))) (o_vars o)) st'
+                 else st' in
+      let o2 := if fout then mkOp (o_vars o1) (o_bond o1) (o_in o1) (flip_all (o_out o1)) (o_const o1) else o1 in
+      (set_nth sl' p (Some o2), st1)
+  | _, _ => (sl', st')
+  end.
+
 Definition apply_flips (sl : slots) (st : state) (b : bounds) (flips : list bool) : slots * state :=
-  fold_left (fun '(sl', st') '(p, ab) =>
-               match ab, get_op sl' p with
-               | (Some a, Some c), Some o =>
-                   let fin := nth a flips false in
-                   let fout := nth c flips false in
-                   let o1 := if fin then mkOp (o_vars o) (o_bond o) (flip_all (o_in o)) (o_out o) (o_const o) else o in
-                   let st1 := if fin then
-                                fold_left (fun s '(k, v) =>
-                                             match prev_for_var sl p v with
-                                             | None => set_nth s v (nth k (o_in o1) false)
-                                             | Some _ => s
-                                             end)
-                                          (combine (seq 0 (length (o_vars o))) (o_vars o)) st'
-                              else st' in
-                   let o2 := if fout then mkOp (o_vars o1) (o_bond o1) (o_in o1) (flip_all (o_out o1)) (o_const o1) else o1 in
-                   (set_nth sl' p (Some o2), st1)
-               | _, _ => (sl', st')
-               end)
-            (combine (seq 0 (length b)) b) (sl, st).
+  fold_left (flip_step sl flips) (combine (seq 0 (length b)) b) (sl, st).
 
 (* one gen_bool per cluster, in cluster order *)
 Fixpoint draw_flips {A} (probs : list Q) (acc : list bool) (k : list bool -> prog A) : prog A :=
